@@ -148,7 +148,7 @@ impl FormatStringParser<'_> {
 
     fn advance_one(&mut self) -> Result<char, Box<dyn Error>> {
         let c = self.front()?;
-        self.string = &self.string[1..];
+        self.string = &self.string[c.len_utf8()..];
         Ok(c)
     }
 
@@ -201,7 +201,7 @@ impl FormatStringParser<'_> {
         }
     }
 
-    fn parse_format_width(&mut self) -> Option<usize> {
+    fn parse_format_width(&mut self) -> Result<Option<usize>, Box<dyn Error>> {
         let start = self.string;
         let mut digits = 0;
 
@@ -212,11 +212,14 @@ impl FormatStringParser<'_> {
         }
 
         if digits > 0 {
-            // safe to unwrap: we already know all the digits are valid due to
-            // the above checks.
-            Some((start[0..digits]).parse().unwrap())
+            // The digits are valid, but the number may still be too large: for usize,
+            // or for the formatting machinery (which limits widths to u16::MAX).
+            match start[0..digits].parse::<usize>() {
+                Ok(width) if width <= usize::from(u16::MAX) => Ok(Some(width)),
+                _ => Err(format!("Field width too large: {}", &start[0..digits]).into()),
+            }
         } else {
-            None
+            Ok(None)
         }
     }
 
@@ -252,7 +255,7 @@ impl FormatStringParser<'_> {
             self.advance_one().unwrap();
         }
 
-        let width = self.parse_format_width();
+        let width = self.parse_format_width()?;
 
         let first = self.advance_one()?;
         if first == '%' {
